@@ -3,8 +3,8 @@
 # usage: ./tools_run_seeded.sh [ids...]
 cd /verif
 # the evidence files are rewritten by every run: keep the ones of the unchanged tree
-rm -rf /tmp/.evidence_keep && cp -r evidence /tmp/.evidence_keep
-trap 'cp /tmp/.evidence_keep/*.json /verif/evidence/ 2>/dev/null; rm -rf /tmp/.evidence_keep' EXIT
+KEEP=${KEEP:-/tmp/.evidence_keep}; rm -rf $KEEP && cp -r evidence $KEEP
+trap 'cp $KEEP/*.json /verif/evidence/ 2>/dev/null; rm -rf $KEEP' EXIT
 for d in seeded/C*-*/; do
   id=$(basename $d); prop=${id%%-*}
   if [ $# -gt 0 ] && [[ ! " $* " =~ " $prop " ]] && [[ ! " $* " =~ " $id " ]]; then continue; fi
